@@ -182,7 +182,8 @@ def view_of(j):
         return {**j, "rev": t}
     if k == "dropColumn":
         c = j["rev"] or {"name": j["column"], "ty": "NULLTYPE", "nullable": True, "default": None, "comment": None}
-        return {**j, "column": c["name"], "rev": c}
+        # `column` stays op.column_name: the attribute the renderer and op.drop_column() use
+        return {**j, "rev": c}
     if k == "dropIndex":
         kw = dict((a, b) for a, b in j["kw"])
         unique = kw.get("unique") == "True"
@@ -267,7 +268,11 @@ def gen_column(rng, name=None):
         kw["server_default"] = rng.choice(["0", "'x'", sa.text("1")])
     if rng.random() < 0.2:
         kw["comment"] = rng.choice(["note", "it's"])
-    return sa.Column(name or rng.choice(COLS), TYPES[ty](), nullable=rng.random() < 0.6, **kw)
+    name = name or rng.choice(COLS)
+    if rng.random() < 0.2:
+        # what declarative models produce when the attribute is not called like the column: Column.key != Column.name
+        kw["key"] = "k_" + name.replace(" ", "_")
+    return sa.Column(name, TYPES[ty](), nullable=rng.random() < 0.6, **kw)
 
 
 def gen_table(rng, with_cons=True):
@@ -278,13 +283,15 @@ def gen_table(rng, with_cons=True):
     if rng.random() < 0.5:
         cols[0] = sa.Column(names[0], sa.Integer, primary_key=True)
     args = list(cols)
+    keyof = {c.name: c.key for c in cols}          # string references in constraints go by Column.key
     if with_cons and rng.random() < 0.4:
-        args.append(sa.UniqueConstraint(*rng.sample(names, min(len(names), rng.choice([1, 2]))), name=rng.choice([None, "uq_1"])))
+        args.append(sa.UniqueConstraint(*[keyof[n_] for n_ in rng.sample(names, min(len(names), rng.choice([1, 2])))],
+                                        name=rng.choice([None, "uq_1"])))
     if with_cons and rng.random() < 0.3:
         args.append(sa.CheckConstraint("%s > 0" % sa.sql.quoted_name(names[0], True) if " " not in names[0] else "1 = 1", name=rng.choice([None, "ck_1"])))
     if with_cons and rng.random() < 0.3:
         fsch = rng.choice([None, None, "s3"])      # schema-qualified referent: "s3.other.id"
-        args.append(sa.ForeignKeyConstraint([names[-1]], ["%sother.id" % (fsch + "." if fsch else "")],
+        args.append(sa.ForeignKeyConstraint([keyof[names[-1]]], ["%sother.id" % (fsch + "." if fsch else "")],
                                             name=rng.choice([None, "fk_1"]), ondelete=rng.choice([None, "CASCADE"]),
                                             match=rng.choice([None, None, "FULL"]), initially=rng.choice([None, None, "DEFERRED"])))
         sa.Table("other", md, sa.Column("id", sa.Integer, primary_key=True), schema=fsch)
@@ -295,11 +302,11 @@ def gen_table(rng, with_cons=True):
         pk = list(reversed(names[:k])) if rng.random() < 0.6 else rng.sample(names, k)
         for i, c in enumerate(cols):
             if c.primary_key or c.name in pk:
-                args[i] = cols[i] = sa.Column(c.name, sa.Integer if c.name == pk[0] else c.type, nullable=False)
-        args.append(sa.PrimaryKeyConstraint(*pk, name=rng.choice([None, None, "pk_1"])))
+                args[i] = cols[i] = sa.Column(c.name, sa.Integer if c.name == pk[0] else c.type, nullable=False, key=c.key)
+        args.append(sa.PrimaryKeyConstraint(*[keyof[n_] for n_ in pk], name=rng.choice([None, None, "pk_1"])))
     if kw.get("sqlite_with_rowid") is False and not any(c.primary_key for c in cols) \
             and not any(isinstance(a, sa.PrimaryKeyConstraint) for a in args):
-        args[0] = cols[0] = sa.Column(names[0], sa.Integer, primary_key=True)   # WITHOUT ROWID needs a primary key
+        args[0] = cols[0] = sa.Column(names[0], sa.Integer, primary_key=True, key=cols[0].key)   # WITHOUT ROWID needs a primary key
     t = sa.Table(n, md, *args, schema=rng.choice(SCHEMAS), **kw)
     return t
 
@@ -388,13 +395,13 @@ def gen_leaf(rng, lossy_p=0.12):
                 # explicit PrimaryKeyConstraint that fixes the order (op.create_table(Column(.., primary_key=True), ..,
                 # PrimaryKeyConstraint('b', 'a')))
                 in_pk = bool(pkc) and c.name in [x.name for x in pkc[0].columns] and pk_flags
-                cols.append(sa.Column(c.name, c.type, nullable=c.nullable,
+                cols.append(sa.Column(c.name, c.type, nullable=c.nullable, key=c.key,
                                       primary_key=in_pk or (i == 0 and kw.get("sqlite_with_rowid") is False and not pkc), **ckw))
             extra = []
             if pkc:
-                extra.append(sa.PrimaryKeyConstraint(*[c.name for c in pkc[0].columns], name=ro_name(pkc[0].name)))
+                extra.append(sa.PrimaryKeyConstraint(*[c.key for c in pkc[0].columns], name=ro_name(pkc[0].name)))
             if rng.random() < 0.3:
-                names_ = [c.name for c in cols]
+                names_ = [c.key for c in cols]
                 extra.append(sa.UniqueConstraint(*rng.sample(names_, min(len(names_), rng.choice([1, 2]))),
                                                  name=rng.choice([None, "uq_d"])))
             op = ops.CreateTableOp(t.name, cols + extra, schema=t.schema, **kw)
@@ -557,7 +564,7 @@ def strip_lossy(op):
         for c in o.columns:
             if isinstance(c, sa.Column) and c.index:
                 c = sa.Column(c.name, c.type, nullable=c.nullable, primary_key=c.primary_key, unique=c.unique,
-                              server_default=c.server_default, comment=c.comment)
+                              server_default=c.server_default, comment=c.comment, key=c.key)
             cols.append(c)
         o.columns = cols
     if isinstance(o, (ops.DropTableOp, ops.DropIndexOp)):
